@@ -63,6 +63,11 @@
 //! model itself derived (for which the predicates hold by contract), so that no symbolic Ok/Err merge precedes later `uf` calls
 //! (units/README.md rule 3). Harnesses about invalid / adversarial points leave it off.
 //!
+//! Representation choices forced by CBMC (units/v4s/NOTES.md section 5): (1) model functions are branch-free in front of `uf`
+//! calls — argument checks are folded into a flag that selects Ok/Err after the uninterpreted function has been evaluated;
+//! (2) `crypto_generichash::State` is a three-word handle into a static arena and has no niche-bearing field, because the
+//! repository moves it through `Result<(Key, State), PasetoError>`; (3) `random::fill_bytes` draws into a local array first.
+//!
 //! Capacity limits are `assert!`s whose message starts with "[model]" (reported as undecided, never as violation).
 
 /// Error type of the real crate (payloads are static strings here; the repository only ever discards the error).
